@@ -1,10 +1,12 @@
 package fsx
 
 import (
+	"errors"
 	"io/fs"
 	"os"
 	"path/filepath"
 	"strings"
+	"syscall"
 	"time"
 
 	"github.com/hack-pad/hackpadfs"
@@ -49,12 +51,26 @@ func (o *OSRef) rel(p string) string {
 func (o *OSRef) fix(err error) error {
 	switch e := err.(type) {
 	case *fs.PathError:
-		return &fs.PathError{Op: e.Op, Path: o.rel(e.Path), Err: e.Err}
+		return &fs.PathError{Op: e.Op, Path: o.rel(e.Path), Err: refInvalid(e.Err)}
 	case *os.LinkError:
-		return &hackpadfs.LinkError{Op: e.Op, Old: o.rel(e.Old), New: o.rel(e.New), Err: e.Err}
+		return &hackpadfs.LinkError{Op: e.Op, Old: o.rel(e.Old), New: o.rel(e.New), Err: refInvalid(e.Err)}
 	}
 	return err
 }
+
+// refInvalid keeps the reference's verdict "invalid argument" independent of how the library spells its sentinel: an
+// EINVAL from the kernel (or the os package's own ErrInvalid) IS the situation hackpadfs.ErrInvalid stands for.
+func refInvalid(err error) error {
+	if (errors.Is(err, syscall.EINVAL) || errors.Is(err, fs.ErrInvalid)) && !errors.Is(err, hackpadfs.ErrInvalid) {
+		return invalidRef{err}
+	}
+	return err
+}
+
+type invalidRef struct{ error }
+
+func (i invalidRef) Unwrap() error        { return i.error }
+func (i invalidRef) Is(target error) bool { return target == hackpadfs.ErrInvalid }
 
 func (o *OSRef) Open(name string) (fs.File, error) {
 	f, err := os.Open(o.p(name))
